@@ -125,3 +125,19 @@ M("c03-exit-returns-popped", "C03", "loop-pairing", (R, "    def _exit(self):\n 
 M("c03-regex-header", "C03", "for-target-alphabet", (CG, "        target, iterable = _for_loop_parts(node)\n", "        match = _FOR_LOOP.match(node.text)\n        if not match:\n            raise SyntaxError(node.text)\n        target, iterable = match.group(1), match.group(2)\n"))
 M("c03-reserved-loop-always", "C03", "enable-loop-guard", (T, '            return codegen.RESERVED_NAMES.difference(["loop"])', '            return codegen.RESERVED_NAMES'))
 M("c03-benign-last", "C03", "silent", (R, "        return self.index == len(self) - 1", "        return self.reverse_index == 0"))
+
+# ---------------------------------------------------------------- C12
+EX = "mako/exceptions.py"
+M("c12-expr-no-source", "C12", "source-recorded", (CG, "    def visitExpression(self, node):\n        self.printer.start_source(node.lineno)\n", "    def visitExpression(self, node):\n"))
+M("c12-include-no-source", "C12", "source-recorded", (CG, "    def visitIncludeTag(self, node):\n        self.printer.start_source(node.lineno)\n", "    def visitIncludeTag(self, node):\n"))
+M("c12-calltag-source-late", "C12", "source-recorded", (CG, '        self.printer.start_source(node.lineno)\n        self.printer.writelines(\n            "__M_writer(%s)"\n            % self.create_filter_callable([], node.expression, True),', '        self.printer.writelines(\n            "__M_writer(%s)"\n            % self.create_filter_callable([], node.expression, True),'))
+M("c12-writeline-count-one", "C12", "line-accounting", (PG, '        self._update_lineno(len(line.split("\\n")))', '        self._update_lineno(1)'))
+M("c12-blanks-not-counted", "C12", "line-accounting", (PG, '        self.stream.write("\\n" * num)\n        self._update_lineno(num)', '        self.stream.write("\\n" * num)\n        self._update_lineno(1)'))
+M("c12-reader-index-base", "C12", "metadata", (EX, "            template_ln = line_map[lineno - 1]", "            template_ln = line_map[lineno]"))
+M("c12-warning-index-base", "C12", "metadata", (T, "            translated = line_map[lineno - 1]", "            translated = line_map[lineno]"))
+M("c12-fullmap-range0", "C12", "metadata", (T, "for mod_line in range(1, max(line_map)):", "for mod_line in range(0, max(line_map)):"))
+M("c12-compile-outside-region", "C12", "warning-regions", (T, "    with _translate_module_warnings(\n        lambda: source, cid, filename or template.uri\n    ):\n        code = compile(source, cid, \"exec\")\n", "    code = compile(source, cid, \"exec\")\n    with _translate_module_warnings(\n        lambda: source, cid, filename or template.uri\n    ):\n"))
+M("c12-translate-wrong-id", "C12", "warning-regions", (T, "        lambda: source, cid, filename or template.uri\n", "        lambda: source, template.uri, filename or template.uri\n"))
+M("c12-drop-region-removed", "C12", "warning-regions", (T, "    with _drop_expression_warnings():\n        source, lexer = _compile(\n            template, text, filename, generate_magic_comment=False\n        )", "    if True:\n        source, lexer = _compile(\n            template, text, filename, generate_magic_comment=False\n        )"))
+M("c12-marker-mismatch", "C12", "metadata", (CG, '"__M_BEGIN_METADATA",', '"__M_BEGIN_META",'))
+M("c12-benign-extra-source", "C12", "silent", (CG, "    def visitBlockTag(self, node):\n        if node.is_anonymous:", "    def visitBlockTag(self, node):\n        self.printer.start_source(node.lineno)\n        if node.is_anonymous:"))
